@@ -58,11 +58,14 @@ def main(tier, seed, replay):
     for i in range(n_nocross):
         wid += 1
         wrng = random.Random(rng.getrandbits(48))
-        w = wg.gen_world(wrng, {'nfeatures': (0, 3), 'cross_section': False})
+        w = wg.gen_world(wrng, {'nfeatures': (0, 3), 'cross_section': False, 'force_surface': wrng.random() < 0.5})
         fn = 'n%d.wb' % wid
         c = core.Case('n%d' % wid, files={fn: wg.dumps(w['json'])})
         world(c, 1, core.workfile(PID, fn))
         idx = [c.add('q2', 1, core.hx(1e5), core.hx(9e5), core.hx(1e5), '1,0,0;4,0,0'), c.add('t2', 1, core.hx(1e5), core.hx(9e5), core.hx(1e5)),
+               # at the surface with the temperature alone (the request a forced surface temperature answers without looking at the point)
+               c.add('q2', 1, core.hx(1e5), core.hx(9e5), core.hx(0.0), '1,0,0'), c.add('t2', 1, core.hx(1e5), core.hx(9e5), core.hx(0.0)),
+               c.add('q2', 1, core.hx(0.0), core.hx(0.0), core.hx(0.0), '1,0,0;1,0,0'),
                c.add('c2', 1, core.hx(1e5), core.hx(9e5), core.hx(1e5), 0), c.add('g2', 1, core.hx(1e5), core.hx(9e5), core.hx(1e5), 0, 2)]
         nocross.append((c, idx, fn))
     core.run_cases('asan', [j[0] for j in jobs] + [n[0] for n in nocross], PID)
